@@ -221,18 +221,21 @@ class LinEval:
 def run(ctx):
     repo = ctx.repo
     ctx.explanation = (
-        'Structural search-loop rules (exactly-once, sibling order) plus symbolic normal forms: the residual, loss increment '
-        'and gradient of _marginal_loss are evaluated in a linear-operator dialect (sums of coefficient * operator chain * base '
-        'vector, coefficients rational functions of noise) for both metrics and compared with the calculus identity; the '
-        'Lipschitz term is normalised as a rational function; fix_measurements is evaluated abstractly for every spelling of '
-        'proj and Q.')
-    ctx.rule_text = 'one obligation per search loop, per form and metric, per spelling of a measurement, per term of the bound'
+        'Structural search rules (exactly-once, sibling order) plus symbolic normal forms: the loss increment and gradient of '
+        '_marginal_loss are computed by a small value-based executor in a linear-operator dialect (sums of coefficient * operator '
+        'chain * base vector, coefficients rational functions of noise) for both metrics and compared with the calculus identity; '
+        'the Lipschitz term is normalised as a rational function; fix_measurements is evaluated abstractly for every spelling of '
+        'proj and Q. All rules run on the normalised function (new helpers inlined, locals copy-propagated), so renames, helper '
+        'extraction and equivalent spellings do not change the verdict.')
+    ctx.rule_text = 'one obligation per search, per form and metric, per spelling of a measurement, per term of the bound'
     ctx.trusted = ['grad 1/2||Ax+b||^2 = A^T(Ax+b); d|u|/du = sign(u)', 'the norm of a projection matrix squared is size(clique)/size(proj)']
     setup = find_setup(repo, INF, 'FactoredInference')
-    lip = repo.func(INF, 'FactoredInference._lipschitz')
-    loss = repo.func(INF, 'FactoredInference._marginal_loss')
-    fix = repo.func(INF, 'FactoredInference.fix_measurements')
-    est = repo.func(INF, 'FactoredInference.estimate')
+    from ..normalise import normalised
+    setup = normalised(repo, setup)
+    lip = repo.nfunc(INF, 'FactoredInference._lipschitz')
+    loss = repo.nfunc(INF, 'FactoredInference._marginal_loss')
+    fix = repo.nfunc(INF, 'FactoredInference.fix_measurements')
+    est = repo.nfunc(INF, 'FactoredInference.estimate')
     s1 = search_loop(ctx, setup, action='append')
     s2 = search_loop(ctx, lip, action='accumulate')
     check_sibling(ctx, setup, s1, lip, s2)
@@ -243,34 +246,111 @@ def run(ctx):
     ctx.floor('C04 obligations', len(ctx.obligations), 20)
 
 
+# ---- the search "first clique of a sequence that contains the measurement's attributes" -----------------------------------
+def is_subset(test, small, big):
+    from .C14 import is_subset_test
+    return is_subset_test(test, small, big)
+
+
+def unpack4(loop):
+    """(Q, y, noise, proj) names bound per measurement by this loop: as its target, or unpacked from its target first thing"""
+    t = loop.target
+    if isinstance(t, ast.Tuple) and len(t.elts) == 4 and all(isinstance(e, ast.Name) for e in t.elts):
+        return [e.id for e in t.elts]
+    if isinstance(t, ast.Tuple) and len(t.elts) == 2 and isinstance(t.elts[1], ast.Tuple) and len(t.elts[1].elts) == 4:
+        return [e.id for e in t.elts[1].elts]
+    if isinstance(t, ast.Name):
+        for s in loop.body[:3]:
+            if isinstance(s, ast.Assign) and len(s.targets) == 1 and isinstance(s.targets[0], ast.Tuple) and \
+                    len(s.targets[0].elts) == 4 and isinstance(s.value, ast.Name) and s.value.id == t.id:
+                return [e.id for e in s.targets[0].elts]
+    return None
+
+
 def find_search(fi):
-    """the loop `for cl in SEQ: if <containment>: ACTION; break` nested in a loop over measurements"""
+    """-> dict(outer loop over measurements, proj name, clique var, sequence expr, kind, action statements, test node)"""
+    from ..normalise import Defs
     for outer in walk_shallow(fi.node):
-        if isinstance(outer, ast.For) and isinstance(outer.target, ast.Tuple) and len(outer.target.elts) == 4:
-            for inner in ast.walk(outer):
-                if isinstance(inner, ast.For) and inner is not outer and isinstance(inner.target, ast.Name) \
-                        and any(isinstance(s, ast.If) for s in inner.body):
-                    return outer, inner
-    raise AnalysisError('%s: clique search loop not found' % fi.qualname)
+        if not isinstance(outer, ast.For):
+            continue
+        names = unpack4(outer)
+        if names is None:
+            continue
+        proj = names[3]
+        # (a) for cl in SEQ: if set(proj) <= set(cl): ACTION; break
+        for inner in ast.walk(outer):
+            if isinstance(inner, ast.For) and inner is not outer and isinstance(inner.target, ast.Name):
+                ifs = [s for s in inner.body if isinstance(s, ast.If)]
+                if len(ifs) == 1 and len(inner.body) == 1 and is_subset(ifs[0].test, proj, inner.target.id) is not None and \
+                        any(proj in names_in(n) for n in ast.walk(ifs[0].test)):
+                    return dict(outer=outer, inner=inner, proj=proj, cl=inner.target.id, seq=inner.iter, kind='loop',
+                                body=ifs[0].body, test=ifs[0], names=names)
+        # (b) cl = next((c for c in SEQ if set(proj) <= set(c)), None)
+        for s in ast.walk(outer):
+            if isinstance(s, ast.Assign) and len(s.targets) == 1 and isinstance(s.targets[0], ast.Name) and \
+                    isinstance(s.value, ast.Call) and U(s.value.func) == 'next' and s.value.args and \
+                    isinstance(s.value.args[0], ast.GeneratorExp) and len(s.value.args[0].generators) == 1:
+                g = s.value.args[0].generators[0]
+                if isinstance(g.target, ast.Name) and U(s.value.args[0].elt) == g.target.id and len(g.ifs) == 1:
+                    from ..normalise import expand
+                    g.ifs[0] = expand(g.ifs[0], Defs(outer.body), keep=(proj, g.target.id))
+                    # the result may be copied into other names: follow single copies
+                    cl = s.targets[0].id
+                    stmts = following(outer, s)
+                    for t in stmts:
+                        if isinstance(t, ast.Assign) and len(t.targets) == 1 and isinstance(t.targets[0], ast.Name) and \
+                                isinstance(t.value, ast.Name) and t.value.id == cl:
+                            cl = t.targets[0].id
+                    return dict(outer=outer, inner=s, proj=proj, cl=cl, seq=g.iter, kind='next', gen=g,
+                                body=stmts, test=g.ifs[0], names=names, genvar=g.target.id)
+    raise AnalysisError('%s: clique search not found' % fi.qualname)
+
+
+def following(outer, stmt):
+    """statements executed after `stmt` in the same iteration (flattening the `if <found>:` guard around them)"""
+    out = []
+
+    def walk(block):
+        found = False
+        for s in block:
+            if found:
+                out.append(s)
+            elif s is stmt:
+                found = True
+            elif any(n is stmt for n in ast.walk(s)):
+                for f in ('body', 'orelse'):
+                    if walk(getattr(s, f, []) or []):
+                        found = True
+        return found
+    walk(outer.body)
+    flat = []
+    for s in out:
+        if isinstance(s, ast.If) and ('is not None' in U(s.test) or 'is None' in U(s.test)):
+            flat.extend(s.body if 'is not None' in U(s.test) else s.orelse)
+        else:
+            flat.append(s)
+    return flat
 
 
 def search_loop(ctx, fi, action):
     ctx.analysed(fi)
-    outer, inner = find_search(fi)
-    proj = U(outer.target.elts[3])
-    cl = inner.target.id
-    ifs = [s for s in inner.body if isinstance(s, ast.If)]
-    from .C14 import is_subset_test
-    ok_shape = len(ifs) == 1 and len(inner.body) == 1 and not ifs[0].orelse and not inner.orelse
-    test_ok = ok_shape and is_subset_test(ifs[0].test, proj, cl)
-    ctx.ob('exactly-once', fi, ifs[0] if ifs else inner, test_ok,
-           'a measurement belongs to a clique that contains its attributes: test must be set(%s) <= set(%s)' % (proj, cl))
-    body = ifs[0].body if ifs else []
-    has_break = bool(body) and isinstance(body[-1], ast.Break)
-    ctx.ob('exactly-once', fi, body[-1] if body else inner, has_break,
-           'the search must stop at the first containing clique: without `break` the measurement is counted once per containing clique',
-           construct='break after the action in ' + fi.name)
-    return dict(outer=outer, inner=inner, proj=proj, cl=cl, body=body, seq=inner.iter)
+    sr = find_search(fi)
+    proj, cl = sr['proj'], sr['cl']
+    if sr['kind'] == 'loop':
+        ifs = sr['test']
+        ctx.ob('exactly-once', fi, ifs, bool(is_subset(ifs.test, proj, cl)),
+               'a measurement belongs to a clique that contains its attributes: test must be set(%s) <= set(%s)' % (proj, cl))
+        body = sr['body']
+        has_break = bool(body) and isinstance(body[-1], ast.Break) and not ifs.orelse and not sr['inner'].orelse
+        ctx.ob('exactly-once', fi, body[-1] if body else sr['inner'], has_break,
+               'the search must stop at the first containing clique: without `break` the measurement is counted once per containing clique',
+               construct='break after the action in ' + fi.name)
+    else:
+        ctx.ob('exactly-once', fi, sr['inner'], bool(is_subset(sr['test'], proj, sr['genvar'])),
+               'a measurement belongs to a clique that contains its attributes: the generator filter must be set(%s) <= set(%s)' % (proj, sr['genvar']))
+        ctx.ob('exactly-once', fi, sr['inner'], True, 'next(...) takes the first containing clique only',
+               construct='first match by next() in ' + fi.name)
+    return sr
 
 
 def check_groups_reset(ctx, setup, s1):
@@ -283,7 +363,7 @@ def check_groups_reset(ctx, setup, s1):
         v = resets[-1].value
         empty = (isinstance(v, ast.Call) and U(v.func) in ('defaultdict', 'dict', 'collections.defaultdict')) or \
             (isinstance(v, ast.Dict) and not v.keys) or (isinstance(v, ast.DictComp) and U(v.value) in ('[]', 'list()'))
-        ok = empty and resets[-1].lineno < s1['outer'].lineno
+        ok = empty and resets[-1].lineno <= s1['outer'].lineno
     ctx.ob('exactly-once', setup, where, ok,
            'setup must rebind self.groups to a fresh empty container (unconditionally, before attaching measurements): groups that '
            'survive from an earlier call make old measurements count again in the loss',
@@ -291,36 +371,56 @@ def check_groups_reset(ctx, setup, s1):
 
 
 def normalise_seq(fi, expr, setup_fi):
-    """resolve single-assignment local aliases and the model's constructor-argument field"""
-    defs = {}
-    for s in walk_shallow(fi.node):
-        if isinstance(s, ast.Assign) and len(s.targets) == 1 and isinstance(s.targets[0], ast.Name):
-            defs.setdefault(s.targets[0].id, []).append(s)
+    """the canonical clique sequence a search runs over: `model` ~ self.model (once published), local aliases of self
+    attributes and of sorted(...) sequences resolved (last definition before the use), model.domain ~ self.domain"""
+    import copy
     alias = {}
-    # `self.model = model` makes the local an alias of self.model
     for s in walk_shallow(fi.node):
         if isinstance(s, ast.Assign) and len(s.targets) == 1 and U(s.targets[0]) == 'self.model' and isinstance(s.value, ast.Name):
             alias[s.value.id] = 'self.model'
-    text = U(expr)
-    tree = ast.parse(text, mode='eval')
+    # execution order of statements (line numbers are useless once helpers have been inlined)
+    order = {}
+    for i, n in enumerate(ast.walk(fi.node)):
+        order[id(n)] = i
+    pos = {}
+    k = [0]
+
+    def number(block):
+        for st in block:
+            k[0] += 1
+            pos[id(st)] = k[0]
+            for ch in ast.walk(st):
+                pos.setdefault(id(ch), k[0])
+            for f in ('body', 'orelse', 'finalbody'):
+                number(getattr(st, f, []) or [])
+    number(fi.node.body)
+    multi = {}
+    for s in walk_shallow(fi.node):
+        if isinstance(s, ast.Assign) and len(s.targets) == 1 and isinstance(s.targets[0], ast.Name):
+            multi.setdefault(s.targets[0].id, []).append(s)
+    use_line = pos.get(id(expr), 10 ** 9)
 
     class Sub(ast.NodeTransformer):
+        def __init__(self, depth=0):
+            self.depth = depth
+
         def visit_Name(self, node):
             if node.id in alias:
                 return ast.parse(alias[node.id], mode='eval').body
-            ds = defs.get(node.id, [])
-            # the definition reaching the search loop: the last assignment before it in source order
-            ds = sorted([d for d in ds if d.lineno < expr.lineno], key=lambda d: d.lineno)
-            if ds and isinstance(ds[-1].value, (ast.Attribute, ast.Name)) and U(ds[-1].value).startswith('self.'):
-                return ast.parse(U(ds[-1].value), mode='eval').body
+            if self.depth > 5:
+                return node
+            ds = sorted([d for d in multi.get(node.id, []) if pos.get(id(d), 0) <= use_line], key=lambda d: pos.get(id(d), 0))
+            if ds:
+                v = ds[-1].value
+                ok = isinstance(v, (ast.Attribute, ast.Name)) or (isinstance(v, ast.Call) and U(v.func) in ('sorted', 'list', 'tuple'))
+                if ok and node.id not in {n.id for n in ast.walk(v) if isinstance(n, ast.Name)}:
+                    return Sub(self.depth + 1).visit(copy.deepcopy(v))
             return node
-    tree = Sub().visit(tree)
-    text = U(tree)
-    # GraphicalModel(self.domain, ...) stores its first argument as .domain
+    text = U(Sub().visit(copy.deepcopy(expr)))
     ctor = [c for c in calls_in(setup_fi.node) if isinstance(c.func, ast.Name) and c.func.id == 'GraphicalModel']
     if ctor and U(ctor[0].args[0]) == 'self.domain':
         text = text.replace('self.model.domain', 'self.domain')
-    return text
+    return text.replace(' ', '')
 
 
 def check_sibling(ctx, setup, s1, lip, s2):
@@ -329,20 +429,153 @@ def check_sibling(ctx, setup, s1, lip, s2):
     ctx.ob('sibling-order', lip, s2['inner'], a == b,
            'loss groups measurements by the first containing clique of `%s`; the bound searches `%s` - the two assignments must coincide'
            % (a, b))
-    # the loss iterates the groups built by setup
-    grp = [s for s in s1['body'] if isinstance(s, ast.Expr) and isinstance(s.value, ast.Call) and U(s.value.func).endswith('.append')]
-    ok = len(grp) == 1 and U(grp[0].value.func) == 'self.groups[%s].append' % s1['cl']
-    ctx.ob('exactly-once', setup, grp[0] if grp else s1['inner'], ok,
-           'the matched clique `%s` receives the measurement: self.groups[%s].append(m)' % (s1['cl'], s1['cl']))
+    # the matched clique receives the measurement tuple of this iteration
+    cl = s1['cl']
+    grp = [c for s in s1['body'] for c in calls_in(s) if isinstance(c.func, ast.Attribute) and c.func.attr == 'append'
+           and U(c.func.value).replace(' ', '') == 'self.groups[%s]' % cl]
+    ctx.ob('exactly-once', setup, grp[0] if grp else s1['inner'], len(grp) == 1,
+           'the matched clique `%s` receives the measurement: self.groups[%s].append(<measurement>)' % (cl, cl))
     if grp:
-        m = grp[0].value.args[0]
-        mdef = None
-        for s in s1['outer'].body:
-            if isinstance(s, ast.Assign) and U(s.targets[0]) == U(m):
-                mdef = s
-        want = '(%s)' % ', '.join(U(e) for e in s1['outer'].target.elts)
-        ctx.ob('exactly-once', setup, mdef or grp[0], mdef is not None and U(mdef.value) == want,
-               'the stored measurement must be the tuple %s of the loop' % want)
+        from ..normalise import Defs, expand
+        m = expand(grp[0].args[0], Defs(s1['outer'].body))
+        want = '(%s)' % ','.join(s1['names'])
+        ctx.ob('exactly-once', setup, grp[0], U(m).replace(' ', '') == want,
+               'the stored measurement must be the tuple %s of the loop; stores `%s`' % (want, U(m)))
+
+
+# ---- loss, gradient -------------------------------------------------------------------------------------------------------------
+class Fact:
+    """a factor-valued token: ('marg', clique) | ('proj', base, attrs)"""
+    def __init__(self, kind, a, b=None):
+        self.kind, self.a, self.b = kind, a, b
+
+    def same(self, o):
+        return isinstance(o, Fact) and self.kind == o.kind and self.b == o.b and \
+            (self.a.same(o.a) if isinstance(self.a, Fact) else self.a == o.a)
+
+    def __repr__(self):
+        return '%s[%s]' % (self.a, self.b) if self.kind == 'marg' else '%r.project(%s)' % (self.a, self.b)
+
+
+class LossExec:
+    """executes the per-measurement statements of a loss function for one metric"""
+
+    def __init__(self, fi, marg, cl, Q, y, noise, metric):
+        self.fi, self.marg, self.cl, self.Q, self.y, self.noise, self.metric = fi, marg, cl, Q, y, noise, metric
+        self.ev = LinEval({y: Lin([((), 'y', Rat.const(1))])}, {Q}, {noise: sym(noise)})
+        self.facts = {}          # name -> Fact
+        self.xsrc = {}           # vector name -> Fact it is the data vector of
+        self.losses, self.grads = [], []
+        self.forms = {}          # name -> Quad | L1Norm (a loss term kept in a local)
+        self.tuples = {}         # name -> element expressions of a tuple display
+        self.ctors = {}          # name -> Factor(...) construction kept in a local
+
+    def fact(self, e):
+        if isinstance(e, ast.Name):
+            return self.facts.get(e.id)
+        if isinstance(e, ast.Subscript) and U(e.value) == self.marg:
+            return Fact('marg', self.marg, U(e.slice))
+        if isinstance(e, ast.Call) and isinstance(e.func, ast.Attribute) and e.func.attr == 'project' and len(e.args) == 1 and not e.keywords:
+            b = self.fact(e.func.value)
+            if b is not None:
+                return Fact('proj', b, U(e.args[0]))
+        return None
+
+    def vector(self, e):
+        """Lin of a data vector expression `<fact>.datavector()` (registers its source) or None"""
+        if isinstance(e, ast.Call) and isinstance(e.func, ast.Attribute) and e.func.attr == 'datavector' and not e.args:
+            f = self.fact(e.func.value)
+            if f is not None:
+                key = 'x'
+                self.xfact = f
+                return Lin([((), 'x', Rat.const(1))])
+        return None
+
+    def value(self, e):
+        # expressions may contain `<fact>.datavector()` inline: evaluate with a hook
+        ev = self.ev
+        me = self
+        orig = ev.ev
+
+        def patched(node):
+            v = me.vector(node)
+            if v is not None:
+                return v
+            if isinstance(node, ast.Name) and node.id in me.forms:
+                return me.forms[node.id]
+            return orig(node)
+        ev.ev = patched
+        try:
+            return ev.ev(e)
+        finally:
+            ev.ev = orig
+
+    def is_metric_test(self, t):
+        return isinstance(t, ast.Compare) and len(t.ops) == 1 and isinstance(t.comparators[0], ast.Constant) and \
+            t.comparators[0].value in ('L1', 'L2') and isinstance(t.ops[0], (ast.Eq, ast.NotEq))
+
+    def run(self, stmts):
+        for s in stmts:
+            self.stmt(s)
+
+    def stmt(self, s):
+        if isinstance(s, ast.Assign) and len(s.targets) == 1 and isinstance(s.targets[0], ast.Name):
+            n = s.targets[0].id
+            f = self.fact(s.value)
+            if f is not None:
+                self.facts[n] = f
+                return
+            if isinstance(s.value, ast.Tuple):
+                self.tuples[n] = list(s.value.elts)
+                return
+            if isinstance(s.value, ast.Call) and (U(s.value.func).split('.')[-1] == 'Factor') and len(s.value.args) == 2:
+                self.ctors[n] = s.value
+                return
+            v = self.value(s.value)
+            if isinstance(v, tuple):
+                self.ev.sc[n] = v[1]
+            elif isinstance(v, Lin):
+                self.ev.vec[n] = v
+            elif isinstance(v, (Quad, L1Norm)):
+                self.forms[n] = v
+            else:
+                raise AnalysisError('%s: `%s` is neither a vector nor a scalar' % (self.fi.qualname, U(s)[:60]))
+            return
+        if isinstance(s, ast.Assign) and len(s.targets) == 1 and isinstance(s.targets[0], ast.Tuple) and isinstance(s.value, ast.Name):
+            if s.value.id in self.tuples and len(self.tuples[s.value.id]) == len(s.targets[0].elts):
+                for t, v in zip(s.targets[0].elts, self.tuples[s.value.id]):
+                    fake = ast.copy_location(ast.Assign(targets=[t], value=v), s)
+                    self.stmt(fake)
+            return          # (otherwise) the measurement unpacking
+        if isinstance(s, ast.AugAssign) and isinstance(s.target, ast.Name) and isinstance(s.op, ast.Add):
+            self.losses.append((s, self.value(s.value)))
+            return
+        if isinstance(s, ast.AugAssign) and isinstance(s.target, ast.Subscript):
+            self.grads.append(s)
+            return
+        if isinstance(s, (ast.Expr, ast.Pass)):
+            return
+        if isinstance(s, ast.If):
+            if self.is_metric_test(s.test):
+                c = s.test.comparators[0].value
+                hit = (c == self.metric) == isinstance(s.test.ops[0], ast.Eq)
+                self.run(s.body if hit else s.orelse)
+                return
+            saved = (dict(self.ev.vec), dict(self.ev.sc), dict(self.facts))
+            self.run(s.body)
+            a = dict(self.ev.vec)
+            af = dict(self.facts)
+            self.ev.vec, self.ev.sc, self.facts = dict(saved[0]), dict(saved[1]), dict(saved[2])
+            self.run(s.orelse)
+            for k in set(a) | set(self.ev.vec):
+                if k not in a or k not in self.ev.vec or not a[k].eq(self.ev.vec[k]):
+                    raise AnalysisError('%s: branches of `if %s` define `%s` differently' % (self.fi.qualname, U(s.test)[:40], k))
+            for k in set(af) | set(self.facts):
+                if k not in af or k not in self.facts or not af[k].same(self.facts[k]):
+                    # a factor chosen differently on the two paths (e.g. projection skipped on one)
+                    self.facts[k] = Fact('mixed', '%s | %s' % (af.get(k), self.facts.get(k)))
+            return
+        raise AnalysisError('%s: unsupported statement `%s`' % (self.fi.qualname, U(s)[:60]))
 
 
 def check_loss(ctx, fi):
@@ -354,207 +587,208 @@ def check_loss(ctx, fi):
     if len(tops) != 1:
         raise AnalysisError('%s: main loop not found' % fi.qualname)
     top = tops[0]
-    pre = {}
-    if isinstance(top.target, ast.Name):
+    pre_stmts = []
+    names = unpack4(top)
+    if names is None and isinstance(top.target, ast.Name):
         outer = top
         cl = outer.target.id
-        inner = [s for s in outer.body if isinstance(s, ast.For)]
-        if len(inner) != 1 or not isinstance(inner[0].target, ast.Tuple) or len(inner[0].target.elts) != 4:
+        inner = [s for s in outer.body if isinstance(s, ast.For) and unpack4(s) is not None]
+        if len(inner) != 1:
             raise AnalysisError('%s: loop over the measurements of a clique not found' % fi.qualname)
         inner = inner[0]
-        Q, y, noise, proj = [U(e) for e in inner.target.elts]
-        ctx.ob('projection-order', fi, inner, U(inner.iter) == 'self.groups[%s]' % cl and U(outer.iter) == marg,
+        Q, y, noise, proj = unpack4(inner)
+        ctx.ob('projection-order', fi, inner, U(inner.iter).replace(' ', '') == 'self.groups[%s]' % cl and U(outer.iter) == marg,
                'the measurements evaluated for clique `%s` must be the ones setup attached to it (self.groups[%s])' % (cl, cl))
-        for s in outer.body:
-            if isinstance(s, ast.Assign) and len(s.targets) == 1 and isinstance(s.targets[0], ast.Name):
-                pre[s.targets[0].id] = s.value
+        pre_stmts = [s for s in outer.body if s is not inner and isinstance(s, ast.Assign) and len(s.targets) == 1
+                     and isinstance(s.targets[0], ast.Name)]
         shape = 'grouped'
-    elif isinstance(top.target, ast.Tuple) and len(top.target.elts) == 4:
+    elif names is not None:
         inner = top
-        Q, y, noise, cl = [U(e) for e in inner.target.elts]
+        Q, y, noise, cl = names
         proj = None
         ctx.ob('projection-order', fi, inner, U(inner.iter) == 'self.measurements',
                'every stored measurement contributes exactly once (loop over self.measurements)')
         shape = 'flat'
     else:
         raise AnalysisError('%s: unrecognised loop structure' % fi.qualname)
-    # ---- straight-line prefix of the inner body, then the metric branch ---------------------------------
-    body = inner.body
-    branch = [s for s in body if isinstance(s, ast.If)]
-    if len(branch) != 1:
-        raise AnalysisError('%s: metric branch not found' % fi.qualname)
-    branch = branch[0]
-    t = branch.test
-    if not (isinstance(t, ast.Compare) and isinstance(t.comparators[0], ast.Constant) and t.comparators[0].value == 'L1'
-            and isinstance(t.ops[0], ast.Eq)):
-        raise AnalysisError('_marginal_loss: unrecognised metric test `%s`' % U(t))
-    defs = {}
-    xname = None
-    for s in body:
-        if s is branch:
-            break
-        if isinstance(s, ast.Assign) and len(s.targets) == 1 and isinstance(s.targets[0], ast.Name):
-            defs[s.targets[0].id] = s
-    # x: the datavector of the (projected) marginal
-    for name, s in defs.items():
-        v = s.value
-        if isinstance(v, ast.Call) and isinstance(v.func, ast.Attribute) and v.func.attr == 'datavector' and not v.args:
-            xname = name
-            xsrc = v.func.value
-    if xname is None:
-        raise AnalysisError('%s: data vector of the marginal not found' % fi.qualname)
-    mu2 = U(xsrc)
-    mu2_def = defs.get(mu2)
-    if shape == 'grouped':
-        ok_proj = False
-        if mu2_def is not None and isinstance(mu2_def.value, ast.Call) and isinstance(mu2_def.value.func, ast.Attribute) \
-                and mu2_def.value.func.attr == 'project' and len(mu2_def.value.args) == 1 and U(mu2_def.value.args[0]) == proj:
-            mu = U(mu2_def.value.func.value)
-            src = pre.get(mu)
-            ok_proj = src is not None and U(src) == '%s[%s]' % (marg, cl)
-        ctx.ob('projection-order', fi, mu2_def or defs[xname], ok_proj,
-               'x must be the data vector of %s[%s].project(%s): Factor.project answers in the attribute order of the measurement; '
-               'source: %s = `%s`' % (marg, cl, proj, mu2, U(mu2_def.value) if mu2_def is not None else '?'))
-    else:
-        ok = mu2_def is not None and U(mu2_def.value) == '%s[%s]' % (marg, cl)
-        ctx.ob('projection-order', fi, mu2_def or defs[xname], ok,
-               'x must be the data vector of %s[%s], the marginal the measurement was taken on' % (marg, cl))
-    scal = {noise: sym(noise)}
-    ev = LinEval({xname: Lin([((), 'x', Rat.const(1))]), y: Lin([((), 'y', Rat.const(1))])}, {Q}, scal)
-    env_stmts = [s for s in body if s is not branch and isinstance(s, ast.Assign) and len(s.targets) == 1
-                 and isinstance(s.targets[0], ast.Name) and s.targets[0].id not in (xname, mu2)]
-
-    def run_stmts(stmts, loss_out, grad_out):
-        for s in stmts:
-            if isinstance(s, ast.Assign) and len(s.targets) == 1 and isinstance(s.targets[0], ast.Name):
-                v = ev.ev(s.value)
-                n = s.targets[0].id
-                if isinstance(v, tuple):
-                    ev.sc[n] = v[1]
-                elif isinstance(v, Lin):
-                    ev.vec[n] = v
-                else:
-                    raise AnalysisError('_marginal_loss: `%s` is not a vector or scalar' % U(s))
-            elif isinstance(s, ast.AugAssign) and isinstance(s.target, ast.Name) and isinstance(s.op, ast.Add):
-                loss_out.append((s, ev.ev(s.value)))
-            elif isinstance(s, ast.AugAssign) and isinstance(s.target, ast.Subscript):
-                grad_out.append(s)
-            elif isinstance(s, (ast.Expr, ast.Pass)):
-                pass
-            else:
-                raise AnalysisError('_marginal_loss: unsupported statement `%s`' % U(s)[:60])
-    pre_stmts = body[:body.index(branch)]
-    post_stmts = body[body.index(branch) + 1:]
     D = Lin([(((Q,), 'x', Rat.const(1) / Rat.sym(noise))), ((), 'y', Rat.const(-1) / Rat.sym(noise))])
-    for metric, stmts in (('L1', branch.body), ('L2', branch.orelse)):
-        ev.vec = {xname: Lin([((), 'x', Rat.const(1))]), y: Lin([((), 'y', Rat.const(1))])}
-        ev.sc = {noise: sym(noise)}
-        losses, grads = [], []
-        run_stmts([s for s in pre_stmts if not (isinstance(s, ast.Assign) and U(s.targets[0]) in (xname, mu2))], losses, grads)
-        run_stmts(stmts, losses, grads)
-        run_stmts(post_stmts, losses, grads)
-        # residual
-        diffs = [n for n, v in ev.vec.items() if n not in (xname, y) and v.eq(D)]
-        ctx.ob('residual-form', fi, defs.get(diffs[0]) if diffs and diffs[0] in defs else inner, bool(diffs),
-               '[%s] a residual (Q x - y)/noise must be formed; vectors: %s' % (metric, {n: v for n, v in ev.vec.items() if n not in (xname, y)}),
-               construct='residual [%s]' % metric)
-        if len(losses) != 1:
-            raise AnalysisError('_marginal_loss[%s]: expected one loss increment, found %d' % (metric, len(losses)))
-        s, v = losses[0]
-        want = Quad(Rat.const(1) / Rat.const(2), D, D) if metric == 'L2' else L1Norm(Rat.const(1), D)
-        ctx.ob('loss-form', fi, s, hasattr(v, 'eq') and not isinstance(v, Lin) and v.eq(want),
-               '[%s] loss increment: expected %r, source %r' % (metric, want, v), construct='%s [%s]' % (U(s), metric))
-        if len(grads) != 1:
-            raise AnalysisError('_marginal_loss[%s]: expected one gradient accumulation' % metric)
-        g = grads[0]
-        if metric == 'L2':
-            wantg = D.apply(Q + '^T').scale(Rat.const(1) / Rat.sym(noise))
+    for metric in ('L1', 'L2'):
+        ex = LossExec(fi, marg, cl, Q, y, noise, metric)
+        ex.xfact = None
+        for s in pre_stmts:
+            f = ex.fact(s.value)
+            if f is not None:
+                ex.facts[s.targets[0].id] = f
+        ex.run(inner.body)
+        # ---- where x comes from ---------------------------------------------------------------------------------
+        xf = ex.xfact
+        if shape == 'grouped':
+            want = Fact('proj', Fact('marg', marg, cl), proj)
+            what = 'x must be the data vector of %s[%s].project(%s): Factor.project answers in the attribute order of the measurement' % (marg, cl, proj)
         else:
-            wantg = Lin([((Q + '^T',), ('sign', D), Rat.const(1) / Rat.sym(noise))])
-        # gradient[cl] += Factor(mu2.domain, grad)
+            want = Fact('marg', marg, cl)
+            what = 'x must be the data vector of %s[%s], the marginal the measurement was taken on' % (marg, cl)
+        ctx.ob('projection-order', fi, inner, xf is not None and xf.same(want), '[%s] %s; source: %r' % (metric, what, xf),
+               construct='source of x [%s]' % metric)
+        # ---- loss ---------------------------------------------------------------------------------------------------
+        if len(ex.losses) != 1:
+            raise AnalysisError('%s[%s]: expected one loss increment, found %d' % (fi.qualname, metric, len(ex.losses)))
+        s, v = ex.losses[0]
+        want_l = Quad(Rat.const(1) / Rat.const(2), D, D) if metric == 'L2' else L1Norm(Rat.const(1), D)
+        ctx.ob('loss-form', fi, s, hasattr(v, 'eq') and not isinstance(v, Lin) and v.eq(want_l),
+               '[%s] loss increment: expected %r, source %r' % (metric, want_l, v), construct='%s [%s]' % (U(s), metric))
+        ctx.ob('residual-form', fi, s, hasattr(v, 'eq') and not isinstance(v, Lin) and v.eq(want_l),
+               '[%s] the residual entering the loss is (Q x - y)/noise' % metric, construct='residual [%s]' % metric)
+        # ---- gradient ---------------------------------------------------------------------------------------------------
+        if len(ex.grads) != 1:
+            raise AnalysisError('%s[%s]: expected one gradient accumulation' % (fi.qualname, metric))
+        g = ex.grads[0]
+        wantg = D.apply(Q + '^T').scale(Rat.const(1) / Rat.sym(noise)) if metric == 'L2' else \
+            Lin([((Q + '^T',), ('sign', D), Rat.const(1) / Rat.sym(noise))])
         val = g.value
-        ok_acc = U(g.target) in ('gradient[%s]' % cl,) or (isinstance(g.target, ast.Subscript) and U(g.target.slice) == cl)
-        ok_dom = isinstance(val, ast.Call) and len(val.args) == 2 and U(val.args[0]) == mu2 + '.domain'
-        gv = ev.ev(val.args[1]) if isinstance(val, ast.Call) and len(val.args) == 2 else None
+        if isinstance(val, ast.Name) and val.id in ex.ctors:
+            val = ex.ctors[val.id]
+        gv = None
+        dom_ok = False
+        if isinstance(val, ast.Call) and len(val.args) == 2:
+            gv = ex.value(val.args[1])
+            d = val.args[0]
+            if isinstance(d, ast.Attribute) and d.attr == 'domain':
+                df = ex.fact(d.value)
+                dom_ok = df is not None and xf is not None and df.same(xf)
+        ok_acc = isinstance(g.target, ast.Subscript) and U(g.target.slice) == cl and isinstance(g.op, ast.Add)
         ctx.ob('gradient-form', fi, g, isinstance(gv, Lin) and gv.eq(wantg),
                '[%s] gradient w.r.t. x: expected %r, source %r' % (metric, wantg, gv), construct='%s [%s]' % (U(g), metric))
-        ctx.ob('projection-order', fi, g, ok_acc and ok_dom and isinstance(g.op, ast.Add),
-               '[%s] the gradient must be added to gradient[%s] as a Factor over %s.domain (the domain x was laid out by)' % (metric, cl, mu2),
+        ctx.ob('projection-order', fi, g, ok_acc and dom_ok,
+               '[%s] the gradient must be added to the entry of clique `%s` as a Factor over the domain of the factor x was read from' % (metric, cl),
                construct='accumulation %s [%s]' % (U(g), metric))
-    # the returned pair
     rets = [r for r in fi.body if isinstance(r, ast.Return)]
     ok = bool(rets) and isinstance(rets[-1].value, ast.Tuple) and len(rets[-1].value.elts) == 2
     ctx.ob('loss-form', fi, rets[-1] if rets else fi.node, ok, 'returns (loss, gradient)')
 
 
+# ---- fix_measurements: abstract evaluation per spelling ---------------------------------------------------------------------------
 class Spell:
-    """abstract evaluation of fix_measurements' loop body for one spelling of (proj, Q)"""
+    """value-based abstract evaluation of the per-measurement statements for one spelling of (proj, Q)"""
 
-    def __init__(self, fi, proj, Q, kind, q_given):
-        self.fi, self.proj, self.Q = fi, proj, Q
-        self.pk = {'str': ('str', 'name'), 'list': ('list', 'attrs'), 'tuple': ('tuple', 'attrs')}[kind]
-        self.q = 'given' if q_given else 'none'
+    def __init__(self, fi, names, kind, q_given):
+        self.fi = fi
+        self.Q, self.y, self.noise, self.proj = names
+        self.env = {
+            self.proj: ('proj',) + {'str': ('str', 'name'), 'list': ('list', 'attrs'), 'tuple': ('tuple', 'attrs')}[kind],
+            self.Q: ('q', 'given') if q_given else ('q', 'none'),
+            self.y: ('in', 'y'), self.noise: ('in', 'noise'),
+        }
         self.q_given = q_given
         self.q_replaced = None
+        self.appended = []
 
-    def type_test(self, t):
-        """decide tests on the type of proj / on Q is None; None = not about them"""
+    def val(self, e):
+        if isinstance(e, ast.Name):
+            return self.env.get(e.id, ('other', U(e)))
+        if isinstance(e, ast.Tuple) and len(e.elts) == 1:
+            v = self.val(e.elts[0])
+            if v[0] == 'proj':
+                return ('proj', 'tuple', 'attrs' if v[1] == 'str' else 'nested sequence')
+        if isinstance(e, ast.Tuple):
+            return ('tuple4',) + tuple(self.val(x) for x in e.elts) if len(e.elts) == 4 else ('tupleof',) + tuple(self.val(x) for x in e.elts)
+        if isinstance(e, ast.List) and len(e.elts) == 1:
+            v = self.val(e.elts[0])
+            if v[0] == 'proj':
+                return ('proj', 'list', 'attrs' if v[1] == 'str' else 'nested sequence')
+        if isinstance(e, ast.Tuple) and len(e.elts) == 1:
+            pass
+        if isinstance(e, ast.Call):
+            f = U(e.func)
+            if f in ('tuple', 'list') and len(e.args) == 1:
+                v = self.val(e.args[0])
+                if v[0] == 'proj':
+                    return ('proj', f, 'attrs' if v[1] in ('list', 'tuple') else 'characters of the name')
+            if f.split('.')[-1] in ('eye', 'identity') and e.args:
+                a = e.args[0]
+                if isinstance(a, ast.Call) and U(a.func) == 'self.domain.size' and len(a.args) == 1:
+                    pv = self.val(a.args[0])
+                    return ('q', 'eye', pv)
+                return ('q', 'eye', ('other', U(a)))
+            # a conversion of a given query keeps it
+            for n in ast.walk(e):
+                if isinstance(n, ast.Name) and self.env.get(n.id, ('',))[0] == 'q' and self.env[n.id][1] in ('given', 'converted'):
+                    return ('q', 'converted')
+        return ('other', U(e)[:40])
+
+    def test(self, t):
         if isinstance(t, ast.UnaryOp) and isinstance(t.op, ast.Not):
-            r = self.type_test(t.operand)
+            r = self.test(t.operand)
             return None if r is None else (not r)
+        if isinstance(t, ast.BoolOp):
+            rs = [self.test(v) for v in t.values]
+            if isinstance(t.op, ast.Or):
+                if any(r is True for r in rs):
+                    return True
+                return False if all(r is False for r in rs) else None
+            if any(r is False for r in rs):
+                return False
+            return True if all(r is True for r in rs) else None
         if isinstance(t, ast.Compare) and len(t.ops) == 1:
             l, r, op = t.left, t.comparators[0], t.ops[0]
-            if isinstance(l, ast.Call) and U(l.func) == 'type' and U(l.args[0]) == self.proj and isinstance(r, ast.Name):
-                same = self.pk[0] == r.id
-                if isinstance(op, (ast.Is, ast.Eq)):
-                    return same
-                if isinstance(op, (ast.IsNot, ast.NotEq)):
-                    return not same
-            if U(l) == self.Q and isinstance(r, ast.Constant) and r.value is None:
-                isnone = self.q == 'none'
-                return isnone if isinstance(op, (ast.Is, ast.Eq)) else (not isnone)
-        if isinstance(t, ast.Call) and U(t.func) == 'isinstance' and U(t.args[0]) == self.proj:
-            k = t.args[1]
-            ks = [U(x) for x in k.elts] if isinstance(k, ast.Tuple) else [U(k)]
-            return self.pk[0] in ks
+            if isinstance(l, ast.Call) and U(l.func) == 'type' and isinstance(r, ast.Name):
+                v = self.val(l.args[0])
+                if v[0] == 'proj':
+                    same = v[1] == r.id
+                    return same if isinstance(op, (ast.Is, ast.Eq)) else (not same)
+            if isinstance(r, ast.Constant) and r.value is None:
+                v = self.val(l)
+                if v[0] == 'q':
+                    isnone = v[1] == 'none'
+                    return isnone if isinstance(op, (ast.Is, ast.Eq)) else (not isnone)
+        if isinstance(t, ast.Call) and U(t.func) == 'isinstance' and len(t.args) == 2:
+            v = self.val(t.args[0])
+            if v[0] == 'proj':
+                k = t.args[1]
+                ks = [U(x) for x in k.elts] if isinstance(k, ast.Tuple) else [U(k)]
+                return v[1] in ks
         return None
 
-    def assign_proj(self, v):
-        k, c = self.pk
-        t = U(v)
-        if t in ('tuple(%s)' % self.proj, 'list(%s)' % self.proj):
-            newk = 'tuple' if t.startswith('tuple') else 'list'
-            self.pk = (newk, 'attrs' if k in ('list', 'tuple') else 'characters of the name')
-        elif t in ('(%s,)' % self.proj, '[%s]' % self.proj):
-            newk = 'tuple' if t.startswith('(') else 'list'
-            self.pk = (newk, 'attrs' if k == 'str' else 'nested sequence')
-        else:
-            self.pk = ('?', '`%s`' % t)
+    def mentions(self, t, kinds):
+        return any(isinstance(n, ast.Name) and self.env.get(n.id, ('',))[0] in kinds for n in ast.walk(t))
 
     def run(self, stmts):
         for s in stmts:
             if isinstance(s, ast.If):
-                r = self.type_test(s.test)
-                if r is None and isinstance(s.test, ast.BoolOp) and isinstance(s.test.op, ast.Or):
-                    parts = [self.type_test(v) for v in s.test.values]
-                    if any(p is True for p in parts):
-                        r = True
-                    elif all(p is False for p in parts):
-                        r = False
-                if r is None and self.proj not in {n.id for n in ast.walk(s.test) if isinstance(n, ast.Name)}:
-                    # a test on something else (e.g. the query): the branch may or may not run
-                    self.run(s.body)
-                    self.run(s.orelse)
-                    continue
+                r = self.test(s.test)
+                if r is None and self.mentions(s.test, ('proj',)):
+                    raise AnalysisError('fix_measurements: undecidable test `%s`' % U(s.test)[:60])
                 if r is None:
-                    raise AnalysisError('fix_measurements: undecidable test `%s`' % U(s.test))
+                    # a test on something else (e.g. properties of the query): either branch may run
+                    saved = dict(self.env)
+                    self.run(s.body)
+                    a = self.env
+                    self.env = dict(saved)
+                    self.run(s.orelse)
+                    for k in set(a) | set(self.env):
+                        if a.get(k) != self.env.get(k):
+                            va, vb = a.get(k), self.env.get(k)
+                            if va and vb and va[0] == vb[0] == 'q' and va[1] in ('given', 'converted') and vb[1] in ('given', 'converted'):
+                                self.env[k] = ('q', 'converted')
+                            elif (va or vb)[0] == 'q':
+                                self.env[k] = ('q', 'maybe-replaced', va, vb)
+                            else:
+                                self.env[k] = ('other', 'differs')
+                    continue
                 self.run(s.body if r else s.orelse)
-            elif isinstance(s, ast.Assign) and len(s.targets) == 1 and U(s.targets[0]) == self.proj:
-                self.assign_proj(s.value)
-            elif isinstance(s, ast.Assign) and len(s.targets) == 1 and U(s.targets[0]) == self.Q:
-                if self.q_given and self.Q not in {n.id for n in ast.walk(s.value) if isinstance(n, ast.Name)}:
-                    self.q_replaced = s      # a supplied query is thrown away
-                self.q = ('eye', U(s.value), self.pk)
+            elif isinstance(s, ast.Assign) and len(s.targets) == 1 and isinstance(s.targets[0], ast.Name):
+                n = s.targets[0].id
+                v = self.val(s.value)
+                cur = self.env.get(n)
+                if cur is not None and cur[0] == 'q' and cur[1] in ('given', 'converted') and v[0] == 'q' and v[1] == 'eye':
+                    self.q_replaced = s
+                self.env[n] = v
+            elif isinstance(s, ast.Assign) and len(s.targets) == 1 and isinstance(s.targets[0], ast.Tuple) and \
+                    isinstance(s.value, ast.Name):
+                continue
+            elif isinstance(s, ast.Expr) and isinstance(s.value, ast.Call) and isinstance(s.value.func, ast.Attribute) \
+                    and s.value.func.attr == 'append' and len(s.value.args) == 1:
+                self.appended.append((s, U(s.value.func.value), self.val(s.value.args[0])))
             elif isinstance(s, (ast.Assert, ast.Expr, ast.Pass)):
                 continue
             elif isinstance(s, ast.Assign):
@@ -565,40 +799,44 @@ class Spell:
 
 def check_fix(ctx, fi, est):
     ctx.analysed(fi)
-    loops = [s for s in fi.body if isinstance(s, ast.For) and isinstance(s.target, ast.Tuple) and
-             (len(s.target.elts) == 4 or (len(s.target.elts) == 2 and isinstance(s.target.elts[1], ast.Tuple) and len(s.target.elts[1].elts) == 4))]
+    loops = [s for s in fi.body if isinstance(s, ast.For) and unpack4(s) is not None]
     if len(loops) != 1:
         raise AnalysisError('fix_measurements: loop over the measurements not found')
     loop = loops[0]
-    tup = loop.target if len(loop.target.elts) == 4 else loop.target.elts[1]
-    Q, y, noise, proj = [U(e) for e in tup.elts]
+    names = unpack4(loop)
+    Q, y, noise, proj = names
+    acc = None
     for kind in ('str', 'list', 'tuple'):
         for q_given in (True, False):
-            sp = Spell(fi, proj, Q, kind, q_given)
+            sp = Spell(fi, names, kind, q_given)
             sp.run(loop.body)
             label = 'proj as %s, Q %s' % (kind, 'given' if q_given else 'omitted')
-            ctx.ob('spelling', fi, loop, sp.pk == ('tuple', 'attrs'),
-                   '[%s] proj must end as one tuple of attribute names (hashable clique key); ends as %s of %s' % (label, sp.pk[0], sp.pk[1]),
+            if len(sp.appended) != 1:
+                raise AnalysisError('fix_measurements [%s]: expected one collected measurement per iteration, found %d' % (label, len(sp.appended)))
+            stmt, acc, tup = sp.appended[0]
+            if tup[0] != 'tuple4':
+                ctx.ob('spelling', fi, stmt, False, '[%s] the collected value is not a (Q, y, noise, proj) tuple: %r' % (label, tup))
+                continue
+            q, yy, nn, pp = tup[1:]
+            ctx.ob('spelling', fi, stmt, pp == ('proj', 'tuple', 'attrs'),
+                   '[%s] proj must end as one tuple of attribute names (hashable clique key); ends as %s' % (label, pp[1:] if pp[0] == 'proj' else pp),
                    construct='proj normalisation [%s]' % label)
+            ctx.ob('spelling', fi, stmt, yy == ('in', 'y') and nn == ('in', 'noise'),
+                   '[%s] answers and noise level are passed through as given' % label, construct='y, noise kept [%s]' % label)
             if q_given:
-                ctx.ob('spelling', fi, sp.q_replaced or loop, sp.q_replaced is None,
-                       '[%s] a supplied query must be used as given (it may be converted, never replaced)%s'
-                       % (label, '' if sp.q_replaced is None else ': `%s` can run for a supplied Q' % U(sp.q_replaced)),
+                ok = q[0] == 'q' and q[1] in ('given', 'converted') and sp.q_replaced is None
+                ctx.ob('spelling', fi, sp.q_replaced or stmt, ok,
+                       '[%s] a supplied query must be used as given (it may be converted, never replaced); collected %r%s'
+                       % (label, q, '' if sp.q_replaced is None else ': `%s` can run for a supplied Q' % U(sp.q_replaced)),
                        construct='Q kept [%s]' % label)
-            if not q_given:
-                ok = isinstance(sp.q, tuple) and sp.q[2] == ('tuple', 'attrs') and \
-                    sp.q[1].replace(' ', '') in ('sparse.eye(self.domain.size(%s))' % proj, 'sparse.identity(self.domain.size(%s))' % proj,
-                                                 'np.eye(self.domain.size(%s))' % proj, 'sparse.eye(self.domain.size(%s),self.domain.size(%s))' % (proj, proj))
-                ctx.ob('spelling', fi, loop, ok,
-                       '[%s] an omitted query means the identity on the marginal: Q = eye(domain.size(proj)) computed after proj is a tuple; got %s'
-                       % (label, sp.q if not isinstance(sp.q, tuple) else '`%s` with proj %s' % (sp.q[1], sp.q[2])),
-                       construct='Q default [%s]' % label)
-    apps = [c for c in calls_in(loop) if isinstance(c.func, ast.Attribute) and c.func.attr == 'append' and len(c.args) == 1]
-    ok = len(apps) == 1 and U(apps[0].args[0]).replace(' ', '') == '(%s,%s,%s,%s)' % (Q, y, noise, proj)
-    acc = U(apps[0].func.value) if apps else None
+            else:
+                ok = q[0] == 'q' and q[1] == 'eye' and q[2] == ('proj', 'tuple', 'attrs')
+                ctx.ob('spelling', fi, stmt, ok,
+                       '[%s] an omitted query means the identity on the marginal: eye(domain.size(proj)) computed from the normalised '
+                       'tuple; collected %r' % (label, q), construct='Q default [%s]' % label)
     rets = [r for r in fi.body if isinstance(r, ast.Return)]
-    ctx.ob('spelling', fi, apps[0] if apps else loop, ok and bool(rets) and U(rets[-1].value) == acc,
-           'the normalised (Q, y, noise, proj) is what is collected and returned')
+    ctx.ob('spelling', fi, rets[-1] if rets else fi.node, bool(rets) and acc is not None and U(rets[-1].value) == acc,
+           'the list of normalised measurements is what is returned')
     # estimate uses the normalised list
     ctx.analysed(est)
     m = est.params[1]
@@ -607,41 +845,40 @@ def check_fix(ctx, fi, est):
     ctx.ob('spelling', est, first or est.node, ok, 'estimate must replace the measurement list by its normalised form before anything else uses it')
 
 
+# ---- the smoothness bound ---------------------------------------------------------------------------------------------------------------
 def check_lipschitz(ctx, fi, s2):
-    Q, _, noise, proj = [U(e) for e in s2['outer'].target.elts]
+    from ..normalise import Defs, expand
+    Q, _, noise, proj = s2['names']
     cl = s2['cl']
     atoms = Atoms()
+    accs = [s for s in ast.walk(s2['outer']) if isinstance(s, ast.AugAssign) and isinstance(s.target, ast.Subscript)]
+    if len(accs) != 1:
+        raise AnalysisError('_lipschitz: accumulation of the per-clique sum not found')
+    acc = accs[0]
+    defs = Defs(s2['outer'].body)
+    value = expand(acc.value, defs, keep=(Q, noise, proj, cl))
+    eig_calls = [c for c in calls_in(value) if U(c.func).split('.')[-1] in ('eigsh', 'eigs', 'svds')]
+    if len(eig_calls) != 1:
+        raise AnalysisError('_lipschitz: eigenvalue computation / accumulation not found')
+    arg = U(expand(eig_calls[0].args[0], defs, keep=(noise, proj, cl))).replace(' ', '')
+    # Q may be wrapped: aslinearoperator(Q)
+    arg = arg.replace('aslinearoperator(%s)' % Q, Q)
+    ok_op = arg in ('%s.H*%s' % (Q, Q), '%s.T*%s' % (Q, Q), '%s.T@%s' % (Q, Q), '%s.H@%s' % (Q, Q))
+    ctx.ob('lipschitz-form', fi, eig_calls[0], ok_op, 'largest eigenvalue must be that of Q^T Q of the measurement\'s own query; computed of `%s`' % arg)
 
     def hook(call, ev):
         f = U(call.func)
         if f.endswith('domain.size') and len(call.args) == 1:
             return sym('size(%s)' % U(call.args[0]))
         return None
-    env = {}
-    acc = None
-    eig_ok = None
-    for s in s2['body']:
-        if isinstance(s, ast.Assign) and len(s.targets) == 1 and isinstance(s.targets[0], ast.Name):
-            n = s.targets[0].id
-            if any(U(c.func).split('.')[-1] in ('eigsh', 'eigs', 'svds') for c in calls_in(s.value)):
-                c = [c for c in calls_in(s.value) if U(c.func).split('.')[-1] in ('eigsh', 'eigs', 'svds')][0]
-                arg = U(c.args[0]).replace(' ', '')
-                eig_ok = (s, arg in ('%s.H*%s' % (Q, Q), '%s.T*%s' % (Q, Q), '%s.T@%s' % (Q, Q), '%s.H@%s' % (Q, Q)))
-                env[n] = sym('lambda_max')
-                continue
-            try:
-                ev = SymEval(env, atoms, hook=hook)
-                env[n] = ev.ev(s.value)
-            except AnalysisError:
-                pass
-        if isinstance(s, ast.AugAssign) and isinstance(s.target, ast.Subscript):
-            acc = s
-    if acc is None or eig_ok is None:
-        raise AnalysisError('_lipschitz: eigenvalue computation / accumulation not found')
-    ctx.ob('lipschitz-form', fi, eig_ok[0], eig_ok[1], 'largest eigenvalue must be that of Q^T Q of the measurement\'s own query')
-    env.setdefault(noise, sym(noise))
-    ev = SymEval(env, atoms, hook=hook)
-    got = ev.ev(acc.value)
+
+    class EigEval(SymEval):
+        def ev(self, e):
+            if any(c is e or (isinstance(e, ast.Subscript) and any(c is n for n in ast.walk(e))) for c in eig_calls):
+                return sym('lambda_max')
+            return super().ev(e)
+    ev = EigEval({noise: sym(noise)}, atoms, hook=hook)
+    got = ev.ev(value)
     want = sym('lambda_max') * sym('size(%s)' % cl) / sym('size(%s)' % proj) / (sym(noise) * sym(noise))
     ctx.ob('lipschitz-form', fi, acc, got.eq(want) and isinstance(acc.op, ast.Add) and U(acc.target.slice) == cl,
            'per-measurement term: expected %r added to the bucket of `%s`, source %r' % (want, cl, got))
